@@ -18,6 +18,7 @@ import (
 	"testing"
 	"time"
 
+	"github.com/postalsys/muti-metroo/internal/config"
 	"github.com/postalsys/muti-metroo/internal/identity"
 	"github.com/postalsys/muti-metroo/internal/sleep"
 	"github.com/postalsys/muti-metroo/internal/verifkit"
@@ -111,6 +112,14 @@ func TestVerif_C33(t *testing.T) {
 		"the agent's offset is read from the calculator at the epoch instant, only its range and constancy are judged")
 	n := r.N(20000, 1500000)
 	r.ParCases("win", n, 4, func(ci int, rng *verifkit.Rand) { c33Case(r, "win", ci, rng) })
+	// the same property through the configuration path: sleep.Manager built from a SleepConfig
+	nm := r.N(4000, 120000)
+	r.ParCases("mgr", nm, 4, func(ci int, rng *verifkit.Rand) { c33ManagerCase(r, "mgr", ci, rng) })
+	r.Require("mgr_answers_judged", 15000)
+	r.Require("mgr_answers_before_epoch", 3000)
+	r.Require("mgr_custom_epoch_cases", 2500)
+	r.Require("mgr_cycle_not_dividing_year1_distance", 1000)
+	r.Require("mgr_active_judged", 8000)
 	r.Require("next_judged", 100000)
 	r.Require("next_judged_before_epoch", 30000)
 	r.Require("inwindow_judged", 100000)
@@ -418,4 +427,181 @@ func c33Case(r *verifkit.R, phase string, ci int, rng *verifkit.Rand) {
 	}
 
 	r.Eval(fmt.Sprintf("%d/%d/%d/%s/%x/%v", m.cycle, m.length, m.tol, epoch.Format(time.RFC3339Nano), id[:], rels), judgedBefore > 0 && judgedNear > 0)
+}
+
+// ------------------------------------------------------------------ manager-config phase
+
+// c33MgrIntervals: many of these do not divide the distance between Go's zero time (year 1) and the Unix epoch
+// (62135596800 s), e.g. 7 s, 81 s, 7/11/13/14/17/61 min; the usual round ones do.
+var c33MgrIntervals = []time.Duration{
+	7 * time.Second, 81 * time.Second, 37 * time.Second, 7 * time.Minute, 11 * time.Minute, 13 * time.Minute, 14 * time.Minute,
+	17 * time.Minute, 61 * time.Minute, 49 * time.Second, 1001 * time.Second, 1500 * time.Millisecond,
+	time.Minute, 5 * time.Minute, 10 * time.Minute, 30 * time.Second, time.Hour, 90 * time.Second, 2 * time.Hour,
+}
+
+const c33Year1ToUnixNs = int64(62135596800) // in seconds (name kept short); reduced modulo the cycle before scaling to ms
+
+// c33ManagerCase builds a sleep.Manager the way the agent does (SleepConfig with deterministic windows) and compares
+// every window answer the Manager exposes (GetNextWindowInfo, GetLocalWindowInfo, GetStatus().NextWindow - all
+// evaluated by the Manager at its own time.Now()) with the integer reference for the CONFIGURED epoch, poll
+// interval, window length and tolerance. The Manager's clock reading is bracketed by two readings of ours, widened
+// by 1 s on both sides; an answer is wrong only if it is wrong for every instant of the bracket.
+func c33ManagerCase(r *verifkit.R, phase string, ci int, rng *verifkit.Rand) {
+	var cycle time.Duration
+	if rng.Chance(3, 4) {
+		cycle = c33MgrIntervals[rng.Intn(len(c33MgrIntervals))]
+	} else {
+		cycle = time.Duration(1+rng.Intn(7200)) * time.Second
+	}
+	dw := config.DeterministicWindowConfig{Enabled: true}
+	// window length / tolerance: 0 = documented defaults (30 s / 5 s)
+	if !rng.Chance(1, 4) {
+		dw.WindowLength = time.Duration(1+rng.Intn(30000)) * time.Millisecond
+	}
+	if !rng.Chance(1, 4) {
+		dw.ClockTolerance = time.Duration(1+rng.Intn(10000)) * time.Millisecond
+	}
+	now0 := time.Now()
+	var epoch time.Time
+	custom := true
+	switch rng.Intn(8) {
+	case 0: // default epoch
+		custom = false
+		epoch = time.Unix(0, 0).UTC()
+	case 1: // a round date after now: every current instant is before the epoch
+		epoch = time.Date(2027+rng.Intn(30), time.Month(1+rng.Intn(12)), 1, 0, 0, 0, 0, time.UTC)
+	case 2: // before 1970
+		epoch = time.Date(1800+rng.Intn(170), time.Month(1+rng.Intn(12)), 1+rng.Intn(28), rng.Intn(24), rng.Intn(60), rng.Intn(60), 0, time.UTC)
+	case 3: // far future
+		epoch = time.Date(2100+rng.Intn(170), time.Month(1+rng.Intn(12)), 1+rng.Intn(28), rng.Intn(24), rng.Intn(60), rng.Intn(60), 0, time.UTC)
+	case 4: // around now, either side, with a zone offset and fractional seconds in the string
+		epoch = now0.Add(time.Duration(rng.Intn(200000)-100000) * time.Second).Truncate(time.Millisecond).In(time.FixedZone("", (rng.Intn(27)-12)*3600+rng.Intn(2)*1800))
+	default:
+		epoch = time.Date(1971+rng.Intn(80), time.Month(1+rng.Intn(12)), 1+rng.Intn(28), rng.Intn(24), rng.Intn(60), rng.Intn(60), 0, time.UTC)
+	}
+	if custom {
+		dw.Epoch = epoch.Format(time.RFC3339Nano)
+		back, err := time.Parse(time.RFC3339, dw.Epoch)
+		if err != nil || !back.Equal(epoch) {
+			r.Inconclusive("harness: epoch string does not round-trip: " + dw.Epoch)
+			return
+		}
+		r.Add("mgr_custom_epoch_cases", 1)
+		// (distance year-1 .. unix epoch) mod cycle != 0, computed without overflow
+		cs := int64(cycle / time.Millisecond)
+		if (c33Year1ToUnixNs%cs*1000)%cs != 0 {
+			r.Add("mgr_cycle_not_dividing_year1_distance", 1)
+		}
+	}
+	cfg := config.SleepConfig{Enabled: true, PollInterval: cycle, PollIntervalJitter: 0.3, PollDuration: time.Second,
+		MaxQueuedMessages: 10, DeterministicWindows: dw}
+	m := sleep.NewManager(cfg, "", nil)
+	if !m.HasDeterministicWindows() {
+		r.Violation("manager:windows-not-enabled", phase, ci, fmt.Sprintf("deterministic windows enabled in the config but the Manager reports none: %+v", dw), nil)
+		return
+	}
+
+	// effective parameters as documented for the configuration (defaults 30 s / 5 s, window shorter than the cycle)
+	wl, tol := dw.WindowLength, dw.ClockTolerance
+	if wl <= 0 {
+		wl = 30 * time.Second
+	}
+	if tol <= 0 {
+		tol = 5 * time.Second
+	}
+	refCalc := sleep.NewWindowCalculator(sleep.WindowConfig{CycleLength: cycle, WindowLength: wl, ClockTolerance: tol, Epoch: epoch})
+	eff := refCalc.GetConfig()
+	ref := c33Ref{cycle: int64(cycle), length: int64(eff.WindowLength), tol: int64(tol)}
+
+	ids := make([]identity.AgentID, 4)
+	for i := range ids {
+		rng.Fill(ids[i][:])
+	}
+	m.SetLocalID(ids[0])
+	type ans struct {
+		via  string
+		id   identity.AgentID
+		info *sleep.WindowInfo
+		t0   time.Time
+		t1   time.Time
+	}
+	var answers []ans
+	ask := func(via string, id identity.AgentID, f func() *sleep.WindowInfo) {
+		t0 := time.Now()
+		info := f()
+		answers = append(answers, ans{via, id, info, t0, time.Now()})
+	}
+	for _, id := range ids {
+		id := id
+		ask("GetNextWindowInfo", id, func() *sleep.WindowInfo { return m.GetNextWindowInfo(id) })
+	}
+	ask("GetLocalWindowInfo", ids[0], m.GetLocalWindowInfo)
+	ask("GetStatus.NextWindow", ids[0], func() *sleep.WindowInfo { return m.GetStatus().NextWindow })
+
+	judged := 0
+	for _, a := range answers {
+		desc := fmt.Sprintf(" | via %s poll_interval=%v window=%v tolerance=%v epoch=%q agent=%s", a.via, cycle, eff.WindowLength, tol, dw.Epoch, verifkit.Hex(a.id[:]))
+		if a.info == nil {
+			r.Violation("manager:no-window-info", phase, ci, "the Manager returned no window info although deterministic windows are enabled and the id is set"+desc, nil)
+			continue
+		}
+		// the agent's offset inside a cycle: black-box from a calculator built directly from the configured values
+		s0, _ := refCalc.NextWindow(a.id, epoch)
+		ref.off = int64(s0.Sub(epoch))
+		if ref.off < 0 || ref.off+ref.length > ref.cycle {
+			continue // judged by phase win
+		}
+		lo := int64(a.t0.Add(-time.Second).Sub(epoch))
+		hi := int64(a.t1.Add(time.Second).Sub(epoch))
+		side := "after-epoch"
+		if lo < 0 {
+			side = "before-epoch"
+			r.Add("mgr_answers_before_epoch", 1)
+		}
+		r.Add("mgr_answers_judged", 1)
+		judged++
+		gs, ge := int64(a.info.Start.Sub(epoch)), int64(a.info.End.Sub(epoch))
+		kLo, _ := ref.next(lo)
+		kHi, _ := ref.next(hi)
+		wit := map[string]any{"via": a.via, "poll_interval": cycle.String(), "window": eff.WindowLength.String(), "tolerance": tol.String(), "epoch": dw.Epoch,
+			"agent": verifkit.Hex(a.id[:]), "offset_ns": ref.off, "now_minus_epoch_ns": [2]int64{lo, hi}, "got_start_minus_epoch_ns": gs, "got_end_minus_epoch_ns": ge}
+		switch {
+		case ge-gs != ref.length:
+			r.Violation("manager:"+side+":wrong-length", phase, ci, fmt.Sprintf("window of %d ns, configured %d ns", ge-gs, ref.length)+desc, wit)
+			continue
+		case c33FloorDiv(gs-ref.off, ref.cycle)*ref.cycle != gs-ref.off:
+			r.Violation("manager:"+side+":not-one-of-the-agents-windows", phase, ci,
+				fmt.Sprintf("the window starts %d ns after the configured epoch; the agent's windows for this epoch start at %d + k*%d ns: the grid is shifted by %d ns",
+					gs, ref.off, ref.cycle, (gs-ref.off)-c33FloorDiv(gs-ref.off, ref.cycle)*ref.cycle)+desc, wit)
+			continue
+		}
+		k := (gs - ref.off) / ref.cycle
+		if k > kHi {
+			r.Violation("manager:"+side+":later-than-earliest", phase, ci, fmt.Sprintf("window index %d, the earliest not-yet-ended one is %d..%d", k, kLo, kHi)+desc, wit)
+			continue
+		}
+		if k < kLo {
+			r.Violation("manager:"+side+":already-ended", phase, ci, fmt.Sprintf("window index %d ended before now, the earliest not-yet-ended one is %d..%d", k, kLo, kHi)+desc, wit)
+			continue
+		}
+		if int64(a.info.Start.Sub(a.info.SafeStart)) != ref.tol || int64(a.info.SafeEnd.Sub(a.info.End)) != ref.tol {
+			r.Violation("manager:safe-span-not-tolerance", phase, ci, fmt.Sprintf("SafeStart/SafeEnd are %v / %v from Start/End", a.info.Start.Sub(a.info.SafeStart), a.info.SafeEnd.Sub(a.info.End))+desc, wit)
+			continue
+		}
+		// membership: judged only when both ends of the bracket agree and neither is on a boundary
+		inLo, classLo, edgeLo := ref.in(lo)
+		inHi, classHi, edgeHi := ref.in(hi)
+		if inLo == inHi && classLo == classHi && !edgeLo && !edgeHi && kLo == kHi {
+			r.Add("mgr_active_judged", 1)
+			switch {
+			case inLo && !a.info.CurrentlyActive && classLo == "trailing-tolerance":
+				r.Violation("inwindow:trailing-tolerance:false-negative", phase, ci, "now lies in the trailing tolerance of a window but CurrentlyActive=false"+desc, wit)
+			case inLo && !a.info.CurrentlyActive:
+				r.Violation("manager:"+classLo+":"+side+":false-negative", phase, ci, "now lies in the "+classLo+" part of a window's safe span but CurrentlyActive=false"+desc, wit)
+			case !inLo && a.info.CurrentlyActive:
+				r.Violation("manager:outside:"+side+":false-positive", phase, ci, "now is in no window's safe span but CurrentlyActive=true"+desc, wit)
+			}
+		}
+	}
+	r.Eval(fmt.Sprintf("mgr/%v/%v/%v/%s/%x", cycle, dw.WindowLength, dw.ClockTolerance, dw.Epoch, ids[0][:]), custom && judged > 0)
 }
